@@ -1676,6 +1676,9 @@ class Memoer(Tymee):
         if len(grams) < cnt:  # must be missing one or more grams
             return None
 
+        if any(i not in grams for i in range(cnt)):  # stray gram number >= cnt
+            return None  # still missing one or more of grams 0 to cnt-1
+
         memo = bytearray()
         for i in range(cnt):  # iterate in numeric order, items are insertion ordered
             memo.extend(grams[i])  # extend memo with gram body part at gram i
